@@ -330,6 +330,14 @@ def handle (t : Array String) : String :=
     let (c, _) := flist t 3
     let lb := t[1]!.toNat!; let ub := t[2]!.toNat!
     pr (Res.denseAbundance (fun (_ : Float) => c) lb ub 0.0) ++ " ; " ++ pr (Res.denseTemperature (fun (_ : Float) => c) c.length lb ub 0.0)
+  | "reslerp" =>
+    -- reslerp <ts> ncols (col)* t : interp1d of the stored columns at t
+    let (ts, p) := flist t 1
+    let (cols, p2) := farrs t p
+    pr (Res.lerp ts (cols.toList.map (·.toList)) (fb t[p2]!))
+  | "bounds" =>
+    let (zs, _) := narr t 1
+    " ".intercalate ((Adv.bounds zs.toList 0).map fun b => toString b.1 ++ " " ++ toString b.2)
   | _ => "bad-op"
 
 partial def loop (h : IO.FS.Stream) (out : IO.FS.Stream) : IO Unit := do
